@@ -730,11 +730,11 @@ func runC11(e *vlib.Env) {
 	seqJob := func(ov [2]*int, cs []call, reuse bool, pkts []*pkt, how string, withState bool) {
 		jobs = append(jobs, func(w *worker, sk *sink) {
 			rt := build(w, ov, cs, reuse, 0, 0, 8)
-			if withState {
-				opST(sk, rt, ov, cs)
-			}
 			for _, p := range pkts {
 				opRS(sk, rt, ov, cs, p, how)
+			}
+			if withState {
+				opST(sk, rt, ov, cs)
 			}
 		})
 	}
@@ -1078,10 +1078,10 @@ func bootCase(r *vlib.Rand) job {
 		if err != nil {
 			panic(err)
 		}
-		opST(sk, b.rt, ov, b.calls)
 		for _, p := range pkts {
 			opRS(sk, b.rt, ov, b.calls, p, "real-startup(topology.json dispatched_ports="+rg.text+")")
 		}
+		opST(sk, b.rt, ov, b.calls)
 	}
 }
 
